@@ -66,6 +66,8 @@ def run(ctx):
     order = [t for i in range(n) for t in tasks[i::n]]
     H.arm_early_stop()
     ctx.pmap(task_fn, order, chunk=max(1, len(order) // (core.NCPU * 8)))
+    ctx.pmap(second_model_task, second_model_cases(ctx.tier))
+    ctx.require(ctx.n('second_model_links_checked') >= 100, 'second-model family did not run (%d links checked)' % ctx.n('second_model_links_checked'))
     C05.guards(ctx, tasks)
     ctx.require(ctx.n('layout:lines') >= ctx.nd('programs'), 'the multi-line layout was not applied to every program')
     ctx.require(ctx.n('values') > 10 * ctx.nd('programs') and ctx.n('statements') > 3 * ctx.nd('programs'),
@@ -76,7 +78,59 @@ def run(ctx):
         ctx.sample(dict(family=t['family'], home=t['home'], text=oalast.assemble(printed, H.layout_of(printed, 'lines'))[0]))
 
 
+# ---------------------------------------------------------------------------
+# two models prebuilt one after the other in ONE process: the second model's values and variables must be typed by
+# data types (enumerators, constants) of their own model
+# ---------------------------------------------------------------------------
+
+def _second_model(sub, host, case):
+    from xtuml import navigate_one as one
+    from mc.refs import oalast
+    text1 = oalast.assemble(oalast.print_program(case['first']))[0]
+    text2 = oalast.assemble(oalast.print_program(case['second']))[0]
+    H.translate(host, 'function', text1)
+    m2 = H.loader().build_metamodel()
+    host2 = H.build_host(m2)
+    H.translate(host2, 'function', text2)
+    own = dict((k, set(map(id, m2.select_many(k)))) for k in ('S_DT', 'S_ENUM', 'CNST_SYC', 'O_OBJ', 'O_ATTR'))
+    checks = [('V_VAL', 'S_DT', 820), ('V_VAR', 'S_DT', 848), ('V_LEN', 'S_ENUM', 824), ('V_SCV', 'CNST_SYC', 850),
+              ('V_INT', 'O_OBJ', 818), ('V_INS', 'O_OBJ', 819), ('V_AVL', 'O_ATTR', 806)]
+    n = 0
+    for kind, to, rel in checks:
+        for inst in m2.select_many(kind):
+            other = one(inst).nav(to, rel)()
+            n += 1
+            if other is not None and id(other) not in own[to]:
+                sub.violation('c06:second-model:foreign-%s' % to, dict(kind='second-model', first=case['first'], second=case['second']),
+                              'after prebuilding another model in the same process, a %s of the second model is related (R%d) to a %s '
+                              'that is not part of that model (%r after %r)' % (kind, rel, to, text2, text1))
+                return n
+    sub.count('second_model_links_checked', n)
+    sub.count('traces')
+    return n
+
+
+def second_model_task(ctx, case):
+    ctx.count('second_model_cases')
+    res = H.isolated(ctx, _second_model, case)
+    if isinstance(res, tuple) and res and res[0] in ('killed', 'died', 'timeout'):
+        ctx.violation('c06:second-model:%s' % res[0], dict(kind='second-model', first=case['first'], second=case['second']),
+                      'prebuilding a second model in the same process: %s' % (res,))
+
+
+def second_model_cases(tier):
+    corpus = H.prebuild_corpus(tier='quick')
+    picked = corpus[:: max(1, len(corpus) // (12 if tier == 'quick' else 60))]
+    out = []
+    for i, (name, stmts) in enumerate(picked):
+        out.append(dict(first=picked[(i + 1) % len(picked)][1], second=stmts))
+    return out
+
+
 def replay(ctx, case):
+    if case.get('kind') == 'second-model':
+        second_model_task(ctx, case)
+        return
     task = dict(family=case['family'], stmts=case['stmts'], home=case['home'], entry=case.get('entry', 'action'),
                 layout=case.get('layout', 'default'))
     H.c06_run(ctx, task)
